@@ -345,3 +345,104 @@ package desync
 //@   ghost@recv:ctx.Done() $sawDone = true
 //@   loop 1: invariant !$sawDone
 //@   ensures $sawDone ==> is(r0, Interrupted)
+
+// ---------------------------------------------------------------------------- C12: request de-duplication
+
+//@ ghost var $owner bool
+//@ ghost var $marked int
+//@ ghost var $deleted int
+//@ ghost var $upstream int
+
+//@ guard queue: requests by mu inv forall k ChunkID :: has(self.requests, k) ==> self.requests[k] != nil
+
+//@ func (q *queue) loadOrStore
+//@   prop C12
+//@   modifies q.mu, q.requests, maps(map[ChunkID]*request)
+//@   ensures r0 != nil && held(q.mu) == old(held(q.mu))
+
+//@ func (q *queue) delete
+//@   prop C12
+//@   modifies q.mu, q.requests, maps(map[ChunkID]*request)
+//@   ensures held(q.mu) == old(held(q.mu))
+
+//@ func (r *request) markDone
+//@   prop C12
+//@   modifies r.data, r.err
+//# both result fields are published before the done channel is closed
+//@   assert@close:r.done r.data == data && r.err == err
+//@   ensures r.data == data && r.err == err
+
+//@ func (r *request) wait
+//@   prop C12
+//@   pure
+//@   ensures r0 == r.data && r1 == r.err
+
+//@ func (q *DedupQueue) GetChunk
+//@   prop C12 C03
+//@   requires held(q.getChunkQueue.mu) == 0
+//@   modifies q.getChunkQueue.mu, q.getChunkQueue.requests, maps(map[ChunkID]*request), heap(request.data), heap(request.err), q.store.$gets, q.store.$lastErr, $owner, $marked, $deleted, $upstream
+//@   ghost@entry $marked = 0
+//@   ghost@entry $deleted = 0
+//@   ghost@entry $upstream = 0
+//@   ghost@after:loadOrStore $owner = !$r1
+//@   ghost@after:GetChunk $upstream = $upstream + 1
+//@   assert@after:GetChunk $owner && $marked == 0
+//@   ghost@after:markDone $marked = $marked + 1
+//@   assert@after:markDone $a0 == b && $a1 == err
+//@   assert@after:delete $marked == 1 && $a0 == id
+//@   ghost@after:delete $deleted = $deleted + 1
+//# nothing blocks or calls upstream while the queue lock is held
+//@   oncall wait: requires held(q.getChunkQueue.mu) == 0 && !$owner
+//@   oncall Store.GetChunk: requires held(q.getChunkQueue.mu) == 0 && $arg0 == id
+//@   ensures @C12 $owner ==> $upstream == 1 && $marked == 1 && $deleted == 1
+//@   ensures @C12 !$owner ==> $upstream == 0 && $marked == 0 && $deleted == 0
+//@   ensures @C12 held(q.getChunkQueue.mu) == old(held(q.getChunkQueue.mu))
+//@   ensures @C03 $owner && err == nil ==> r0 != nil && r0.idCalculated && r0.id == id
+//@   ensures @C12 $owner ==> err == q.store.$lastErr
+
+//@ func (q *DedupQueue) HasChunk
+//@   prop C12
+//@   nochecks panic
+//@   requires held(q.hasChunkQueue.mu) == 0
+//@   ghost@entry $marked = 0
+//@   ghost@entry $deleted = 0
+//@   ghost@entry $upstream = 0
+//@   ghost@after:loadOrStore $owner = !$r1
+//@   ghost@after:HasChunk $upstream = $upstream + 1
+//@   assert@after:HasChunk $owner && $marked == 0
+//@   ghost@after:markDone $marked = $marked + 1
+//@   assert@after:markDone $a1 == err && $a1 == q.store.$lastErr
+//@   assert@after:delete $marked == 1 && $a0 == id
+//@   ghost@after:delete $deleted = $deleted + 1
+//@   oncall wait: requires held(q.hasChunkQueue.mu) == 0 && !$owner
+//@   oncall Store.HasChunk: requires held(q.hasChunkQueue.mu) == 0 && $arg0 == id
+//@   ensures $owner ==> $upstream == 1 && $marked == 1 && $deleted == 1
+//@   ensures !$owner ==> $upstream == 0 && $marked == 0 && $deleted == 0
+//@   ensures $owner ==> r0 == q.store.$lastHas && err == q.store.$lastErr
+
+//@ func (q *WriteDedupQueue) StoreChunk
+//@   prop C12
+//@   requires held(q.storeChunkQueue.mu) == 0
+//@   ghost@entry $marked = 0
+//@   ghost@entry $deleted = 0
+//@   ghost@entry $upstream = 0
+//@   ghost@after:loadOrStore $owner = !$r1
+//@   ghost@after:StoreChunk $upstream = $upstream + 1
+//@   assert@after:StoreChunk $owner && $marked == 0
+//@   ghost@after:markDone $marked = $marked + 1
+//@   assert@after:markDone $a0 == chunk && $a1 == err
+//@   assert@after:delete $marked == 1 && $a0 == id
+//@   ghost@after:delete $deleted = $deleted + 1
+//@   oncall wait: requires held(q.storeChunkQueue.mu) == 0 && !$owner
+//@   oncall WriteStore.StoreChunk: requires held(q.storeChunkQueue.mu) == 0
+//@   ensures $owner ==> $upstream == 1 && $marked == 1 && $deleted == 1
+//@   ensures !$owner ==> $upstream == 0 && $marked == 0 && $deleted == 0
+
+//@ func (q *WriteDedupQueue) GetChunk
+//@   prop C12
+//@   requires held(q.storeChunkQueue.mu) == 0 && held(q.DedupQueue.getChunkQueue.mu) == 0
+//@   requires ref(q.storeChunkQueue) != ref(q.DedupQueue.getChunkQueue)
+//# reads consult the in-flight write queue first: the read queue is used only when no store of the same ID is in flight
+//@   oncall GetChunk: requires !isInFlight
+//@   oncall wait: requires held(q.storeChunkQueue.mu) == 0 && isInFlight
+//@   ensures held(q.storeChunkQueue.mu) == old(held(q.storeChunkQueue.mu))
